@@ -8,6 +8,12 @@ Next == /\ n < MaxHist
         /\ \E a \in Accessors : m' = Call(in, m, a).m
         /\ n' = n + 1 /\ UNCHANGED in
 Spec == Init /\ [][Next]_vars
+\* Unbounded check: the memo cells form a finite state space once the history length and the
+\* absolute number of authenticator calls (on which no transition and no property depends: the
+\* properties speak about the change made by one call) are projected away, so TLC visits every
+\* reachable memo state of histories of ANY length.
+AbstractView == <<in, [m EXCEPT !.authcalls = 0]>>
+
 Memo == /\ BodyAtMostOnce(m) /\ LookupAtMostOnce(m)
         /\ \A a \in Accessors : ReusedNotRecomputed(in, m, a) /\ CellsStable(in, m, a) /\ NoReauthWhileCached(in, m, a)
 =============================================================================
